@@ -452,7 +452,10 @@ pub fn run_streaming(sc: &Value) -> Value {
                 }
             } else if terminal == Some("end") {
                 if delivered != accepted {
-                    violations.push(json!({"property": "C08", "what": format!("delivered {} bytes != accepted {} bytes (or different content)", delivered.len(), accepted.len())}));
+                    // no Content-Encoding header: the body must be the written bytes verbatim
+                    // (C08 identity; C17 "the body's actual coding always matches that header")
+                    let looks_gzip = delivered.len() >= 2 && delivered[0] == 0x1f && delivered[1] == 0x8b;
+                    violations.push(json!({"property": "C08", "properties": ["C08", "C17"], "what": format!("no Content-Encoding, but delivered {} bytes != accepted {} bytes (or different content{})", delivered.len(), accepted.len(), if looks_gzip { "; the body starts with a gzip header" } else { "" })}));
                 }
             } else if !accepted.starts_with(&delivered) {
                 violations.push(json!({"property": "C11", "what": "bytes delivered before the error are not a prefix of the bytes written"}));
